@@ -226,6 +226,10 @@ func (w *walker) rec(toks []int, idx int, depth int, st int, tail string, inOwne
 		ctoks := append(toks, y)
 		s := join(ctoks)
 		cst, clast := classify(s)
+		if w.classified&4095 == 4095 && w.stop != nil && w.stop() {
+			w.stopped = true
+			return
+		}
 		if owned {
 			w.classified++
 			switch cst {
